@@ -1,6 +1,10 @@
 /- `#print axioms` for every property theorem; machine-read by ./check -/
 import CoreDhcp.Props.C20
 import CoreDhcp.Props.Gen
+import CoreDhcp.Props.GenDispatch4
+import CoreDhcp.Props.GenDispatch6
+import CoreDhcp.Props.GenServerID6
+import CoreDhcp.Props.GenNetmask
 import CoreDhcp.Props.C02
 import CoreDhcp.Props.C03
 import CoreDhcp.Props.C03Key
@@ -136,3 +140,24 @@ open CoreDhcp
 #print axioms C03_restore_concrete
 #print axioms GEN_offset_eq
 #print axioms GEN_addPrefixes_eq
+#print axioms GEN_peer4_eq
+#print axioms GEN_pinIf4_eq
+#print axioms GEN_woob4_eq
+#print axioms GEN_stub4_eq
+#print axioms GEN_stubType4_eq
+#print axioms GEN_dispatch4_eq
+#print axioms GEN_replyKind6_eq
+#print axioms GEN_stub6_eq
+#print axioms GEN_replyKind6_spec
+#print axioms GEN_replyKind6_table
+#print axioms GEN_replyKind6_all
+#print axioms GEN_pinIf6_eq
+#print axioms GEN_woob6_eq
+#print axioms GEN_dispatch6_eq
+#print axioms GEN_sidDecision_spec
+#print axioms GEN_sidDecision_table
+#print axioms GEN_sidDecision_all
+#print axioms GEN_sidDecision_model
+#print axioms GEN_sidDecision_rel6
+#print axioms GEN_checkValidNetmask_eq
+#print axioms GEN_checkValidNetmask_masks
